@@ -467,6 +467,47 @@ def run(world, rep, tier, only=None):
                "`%s` (line %d) lies behind a test that guarantees %s > %d" % (n.text()[:30], n.line, v, k_))
     rep.floor("C19.j reductions of the pending-hole counter in output_meta_data_blocks", n_red, 1)
 
+    # ------------------------------------------------------------------ C19.k a cluster reserved for an L2 table is not handed to a refcount block
+    # When add_l2_item() reports that the next L2 table needs a cluster, the writer reserves the cluster at `offset` for
+    # it and refcounts it.  If that refcount starts a new refcount block, the block has to go *behind* the reserved
+    # cluster: the update_refcount() call that follows add_l2_item() is given a refcount-block position different from
+    # the cluster it counts (offset + cluster_size), unlike the call for a data cluster not yet written.
+    oq = ef["output_qcow2_meta_data_blocks"]
+    l2 = [oq.block_end(b) for b in oq.blocks if oq.literal(b) and any(cc.get("fn") == "add_l2_item" for cc in T.calls(oq.literal(b)[0]))]
+    rep.floor("C19.k add_l2_item test in output_qcow2_meta_data_blocks", len(l2), 1)
+    ur = []
+    for n in oq.nodes():
+        lit = oq.literal(n.bid) if n is oq.block_end(n.bid) else None
+        cs_ = ([n.ev["x"]] if n.ev and n.ev["e"] == "C" else []) + (T.calls(lit[0]) if lit else [])
+        for cc in cs_:
+            if cc.get("fn") == "update_refcount" and len(cc.get("a", [])) >= 4:
+                ur.append((n, cc))
+    for e_ in l2:
+        lit = oq.literal(e_.bid)
+        inside = [m for (m, si) in oq.succ(e_) if (si == 0) == lit[1]]
+        hb_ = loop_head(oq, e_)
+        r = oq.reach(inside, avoid=l2 + ([oq.node(hb_, 0)] if hb_ is not None else []))       # this turn of the loop only
+        # the nearest one on the way (breadth first; an absorbed helper's nodes carry the helper's line numbers)
+        urn = {id(n): (n, cc) for (n, cc) in ur}
+        first, seen_, frontier = [], set(), list(inside)
+        stop_ = set(l2) | ({oq.node(hb_, 0)} if hb_ is not None else set())
+        while frontier and not first:
+            nxt = []
+            for m in frontier:
+                if id(m) in seen_ or m in stop_:
+                    continue
+                seen_.add(id(m))
+                if id(m) in urn:
+                    first = [urn[id(m)]]
+                    break
+                nxt += [x for (x, si) in oq.succ(m)]
+            frontier = nxt
+        for (n, cc) in first:
+            same = T.pp(cc["a"][2]) == T.pp(cc["a"][3])
+            rep.ob("C19.k", site(oq, "refcount block for the reserved L2 cluster placed behind it"), not same,
+                   "update_refcount(fd, img, %s, %s) after add_l2_item(): the position of a new refcount block differs from the cluster counted" %
+                   (T.pp(cc["a"][2])[:20], T.pp(cc["a"][3])[:30]))
+
     # ------------------------------------------------------------------ C19.w offset width
     fns = [f for f in prog.functions() if f.file in (E2I, QC, "lib/ext2fs/imager.c")]
     hits, n_and = width.zx_masks(fns)
